@@ -88,8 +88,14 @@ def def_multi_column_map(
         )
     )
     if coalesce_value is not None:
+        # a string value has to be quoted, else the expression parser reads it as a column name
+        coalesce_text = (
+            repr(coalesce_value)
+            if isinstance(coalesce_value, str)
+            else str(coalesce_value)
+        )
         ops = ops.extend(
-            {mapped_value_key: f"{mapped_value_key}.coalesce({coalesce_value})"}
+            {mapped_value_key: f"{mapped_value_key}.coalesce({coalesce_text})"}
         )
     ops = ops.convert_records(record_map_back)
     if cols_to_map_back is not None:
